@@ -57,6 +57,7 @@ def value_fields(inst, lay_name):
         yield f
 
 
+N_ALL = 30  # >= the longest alphabet: every (field, alphabet entry) pair occurs in one all-at-once product
 SPEC = {"level": "1.5", "images": [["HH", None, 1, 1]], "leader": {"n_att": 2, "n_chan": 2}}
 
 
@@ -65,7 +66,7 @@ def plan(tier, seed):
     per_field = 3 if tier == "quick" else 99
     insts = instances(2, 2)
     # all fields deviated at once, one product per alphabet index
-    for j in range(14):
+    for j in range(N_ALL):
         devs = []
         for inst, lay_name in insts:
             for f in value_fields(inst, lay_name):
@@ -118,9 +119,9 @@ def execute(case):
 
 def run(res, tier, seed):
     res.rule = (
-        "baseline + every single (field, value) deviation over the value fields of the exposed leader records (floats: 14 text"
+        "baseline + every single (field, value) deviation over the value fields of the exposed leader records (floats: 28 text"
         " formats incl. E/F notation, signs, justification, extremes; ints; texts; every enum code; complex pairs)"
-        " [quick: 3 alphabet entries per field, rotated] + 14 all-fields-at-once products + structural variants"
+        " [quick: 3 alphabet entries per field, rotated] + 30 all-fields-at-once products (every field x every alphabet entry) + structural variants"
         " (attitude points 1,2,3,136 x channels 1,2,16; map projection absent/UTM/UPS/LCC/MER x levels)."
         " Non-trivial = the deviation changes at least one byte of the leader file; every case compares all /metadata leaves."
     )
